@@ -99,6 +99,10 @@ pub fn gen_case(t: &mut Tape) -> Case {
                 "(from t3 | derive {zz = id + 1} | select {zz, zy = a})",
                 "(from t3 | select {zz = id, zy = a} | join zd = (from t1 | select {zx = id}) (zz == zd.zx))",
                 "(from t3 | select {zz = id, zy = a} | filter zy > 0)",
+                // one column without a name (an expression, an aggregate): it cannot be named outside
+                // but it is part of the relation
+                "(from t3 | select {zz = id, zy = a, a * 12})",
+                "(from t3 | group {zz = id} (aggregate {zy = max a, sum a}))",
             ]);
             // (no sort / take here: a sort in effect around a sub-pipeline is the recorded
             // C16-subpipeline-sort-leaks-into-main / computed-sort-key findings)
